@@ -40,21 +40,35 @@ def check_representation(rep, facts, rel, rule):
                     uses_reg_field = IS.find_all(arg, lambda t: t[0] == 'attr' and t[1] == item and t[2] in REG_PARAMS)
                     if uses_reg_field:
                         normalised = bool(IS.find_all(arg, lambda t: t[0] == 'call' and t[1] == 'lookup_register'))
-                        textual = arg[0] in ('call', 'mcall') and (arg[1] == 'str' or (arg[0] == 'mcall' and arg[2] == 'format')) or arg[0] == 'opaque'
+                        textual = arg[0] in ('call', 'mcall') and (arg[1] == 'str' or (arg[0] == 'mcall' and arg[2] == 'format')) or arg[0] == 'opaque' \
+                            or (arg[0] == 'bin' and arg[1] == '%' and is_const(arg[2]) and isinstance(arg[2][1], str))
                         if normalised and textual:
                             rep.ok(rule + '.imm', inst + ' (normalised through lookup_register, as text)')
-                        elif arg[0] == 'attr':
+                        elif arg[0] == 'attr' or (textual and not normalised):
                             rep.fail(Finding(rule + '.imm', 'transform_compressible', con.node,
                                              'the shift amount held in register field {} is re-wrapped as Arithmetic({}): after resolve_register_aliases the field may be an int '
                                              '(Arithmetic.eval calls .startswith on it) and a register-name spelling that lookup_register accepts without -c is evaluated in an '
                                              'environment without REGISTERS: a program accepted without -c fails with -c'.format(uses_reg_field[0][2], show(arg)),
                                              line=con.node.lineno), instance=inst)
                         else:
-                            raise AnalysisError('rule {!r}: cannot classify the representation of {}'.format(key, show(arg)))
+                            rep.undecided('rule {!r}: cannot classify the representation of {}'.format(key, show(arg)))
                         continue
                     if is_const(arg) and isinstance(arg[1], str):
                         rep.ok(rule + '.imm', inst, nontrivial=False)
                         continue
+                    if arg[0] == 'attr' and arg[1] == item:
+                        # Arithmetic(item.imm): a field that holds an expression object (or anything but text) is wrapped again
+                        rep.fail(Finding(rule + '.imm', 'transform_compressible', con.node,
+                                         'immediate parameter of {} receives {}: Arithmetic takes the text of an expression, the field {} holds an expression object'.format(
+                                             con.cls, show(prov), arg[2]), line=con.node.lineno), instance=inst)
+                        continue
+                    # Arithmetic(<something else>): what text it is given is not understood
+                    rep.undecided('rule {!r}: the text handed to Arithmetic ({}) is not understood'.format(key, show(arg)[:80]))
+                    continue
+                if prov[0] in ('call', 'callv', 'mcall', 'name', 'opaque', 'sub', 'havoc', 'res', 'ifexp'):
+                    # built by something that is not followed: no verdict about its representation
+                    rep.undecided('rule {!r}: the immediate handed to {} ({}) is built by something the analysis does not follow'.format(key, con.cls, show(prov)[:80]))
+                    continue
                 rep.fail(Finding(rule + '.imm', 'transform_compressible', con.node,
                                  'immediate parameter of {} receives {}, which is not an expression object'.format(con.cls, show(prov)), line=con.node.lineno),
                          instance=inst)
@@ -66,7 +80,9 @@ def check_total(rep, facts, rel, rule):
     rule reads exists on the class of that mnemonic."""
     for ru in rel.rules:
         first = ru.formulas[0] if ru.formulas else None
-        ok_first = first is not None and first[0] == 'cmp' and first[2] == ('NAME',)
+        from ..comprel import terms_of
+        # the first test reads nothing but the mnemonic (a single comparison, or a membership in a set of mnemonics)
+        ok_first = first is not None and bool(terms_of(first)) and all(t[0] in ('NAME', 'const') for t in terms_of(first))
         rep.check(ok_first, rule, '{}: mnemonic test precedes the field tests'.format(ru.key),
                   lambda ru=ru: Finding(rule, 'transform_compressible', 'criteria ' + ru.key,
                                         'rule {!r} reads operand fields before it has checked the mnemonic: getattr fails on items of other classes'.format(ru.key),
